@@ -160,3 +160,56 @@ MUTANTS = [
      "replace": "                    Err(cause) if cause.downcast_ref::<std::io::Error>().is_some() => { return; }\n                    Err(cause) => {\n                        let listen_error = ListenError::Denied { cause };\n",
      "expect": r"^denied/", "why": "one denial path reports no ListenFailure / IncomingConnectionError"},
 ]
+
+
+# ------------------------------------------------------------------------------------------------------------------------
+# behaviour combinators shipped with the swarm crate (Toggle, Either): an inner behaviour's denial must stay a denial
+def _combinators(ctx):
+    prog = ctx.prog
+    HOOK = r"handle_(pending|established)_(in|out)bound_connection$"
+    n_calls = 0
+    for b in prog.bodies(SW):
+        if not re.search(HOOK, b.npath) or b.kind not in ("fn", "method") or b.npath.startswith("libp2p_swarm::Swarm"):
+            continue
+        inner = b.call_sites(r"NetworkBehaviour::" + HOOK + r"|NetworkBehaviour>::" + HOOK)
+        if not inner:
+            continue
+        ctx.bodies.add(b.npath)
+        oks = {d[1] for d in b.defs.get(0, []) if d[0] == "stmt" and render(b.rvalue_expr(d[3])).startswith("std::result::Result::Ok{")}
+        for c in inner:
+            n_calls += 1
+            hook = mir.strip_generics(b.call_name(c.term)).split("::")[-1]
+            who = b.npath.split("::", 1)[-1]
+            # edges on which the inner hook's result is known to be Err: `?` (Break), match / if let (Err)
+            err = set()
+            for bi in b.live:
+                info = b.switch_info(bi)
+                if not info or info[0][0] != "discr":
+                    continue
+                if not any(x[0] == "call" and x[3] == c.bb for x in mir.walk(info[0])):
+                    continue
+                for tgt, ls in info[1].items():
+                    if ls and ls <= {"Err", "Break"}:
+                        err.add((bi, tgt))
+            # ... or the inner Result is returned as it is (tail call)
+            passthrough = ("pr" not in c.term["d"] and c.term["d"]["l"] == 0) or any(
+                d[0] == "stmt" and (lambda e: e[0] == "call" and e[3] == c.bb)(b.rvalue_expr(d[3])) for d in b.defs.get(0, []))
+            if passthrough and not err:
+                ctx.ob("combinator", "%s: the inner %s result is returned unchanged" % (who, hook), True, c.loc(), "tail call: the inner Result is the result")
+                continue
+            ctx.ob("combinator", "%s: the inner %s result is branched on (a denial is not swallowed)" % (who, hook), bool(err), c.loc(),
+                   "Err/Break edge(s) of the inner call: %s" % sorted(err) if err else
+                   "the inner behaviour's Result is never tested: a denial is converted into something else (e.g. `.ok()`)")
+            for _, t in err:
+                r = b.reachable_bool([t])
+                ctx.ob("combinator", "%s: an inner %s denial cannot end in Ok" % (who, hook), not (oks & r), c.loc(),
+                       "no Ok(..) result is reachable from the Err edge of the inner call" if not (oks & r) else "an Ok(..) return is reachable after the inner behaviour denied")
+    ctx.ob("combinator", "floor:inner hook calls in behaviour combinators", n_calls >= 8, nontrivial=False, msg="%d inner hook calls (Toggle 4 + Either 2x4)" % n_calls)
+
+
+_check_core = check
+
+
+def check(ctx):
+    _check_core(ctx)
+    _combinators(ctx)
